@@ -18,10 +18,14 @@ for d in sorted(os.listdir(os.path.join(V, "seeded"))):
     assert subprocess.run(["git", "-C", "/repo", "status", "--porcelain"], capture_output=True, text=True).stdout.strip() == "", "/repo not clean"
     subprocess.run(["git", "-C", "/repo", "apply", os.path.join(sd, "patch.diff")], check=True)
     t = time.time()
+    ev = os.path.join(V, "evidence", prop + ".json")
+    saved = open(ev).read() if os.path.exists(ev) else None      # the evidence of the unchanged tree is restored afterwards
     try:
         p = subprocess.run([os.path.join(V, "check"), prop, "--tier", "quick"], cwd=V, capture_output=True, text=True, timeout=3600)
     finally:
         subprocess.run(["git", "-C", "/repo", "checkout", "--", "."], check=True)
+        if saved is not None:
+            open(ev, "w").write(saved)
     viol = [l for l in p.stdout.splitlines() if l.startswith("VIOLATION")]
     meta = {
         "property": prop,
